@@ -81,15 +81,15 @@ func cmdCheck(args []string) int {
 }
 
 type Run struct {
-	w       *World
-	prop    string
-	tier    string
-	timeout int
-	verbose bool
-	keep    bool
-	only    string
-	start   time.Time
-	units   []*UnitResult
+	w             *World
+	prop          string
+	tier          string
+	timeout       int
+	verbose       bool
+	keep          bool
+	only          string
+	start         time.Time
+	units         []*UnitResult
 	canarySat     int
 	canaryUnknown int
 	vacuous       []string
@@ -137,7 +137,11 @@ func (r *Run) execute() int {
 			r.units = append(r.units, &UnitResult{Name: w.unitName(d), Kind: d.Kind, Decl: d, Undecided: "trusted"})
 			continue
 		}
+		t0 := time.Now()
 		u := w.verifyDecl(d)
+		if r.verbose {
+			fmt.Printf("symex %-50s %.2fs obligations=%d\n", u.Name, time.Since(t0).Seconds(), len(u.Obls))
+		}
 		r.units = append(r.units, u)
 		if r.only == "" {
 			for _, c := range u.Callees {
@@ -225,4 +229,3 @@ func (r *Run) execute() int {
 	r.scanProblems = w.checkEstablishedBy()
 	return r.report()
 }
-
